@@ -236,243 +236,261 @@ func extractConfig() *configFacts {
 	cf := &configFacts{Fields: map[string][]configField{}, Defaults: map[string][][2]string{}}
 
 	// (1) loader order: the single AddConfigLoaders(...) call in SetUpConfigManager
-	if fd := funcDecl(cfgContext, "", "SetUpConfigManager"); fd != nil {
-		n := 0
-		ast.Inspect(fd, func(nd ast.Node) bool {
-			call, ok := nd.(*ast.CallExpr)
-			if !ok {
-				return true
-			}
-			sel, ok := call.Fun.(*ast.SelectorExpr)
-			if !ok || sel.Sel.Name != "AddConfigLoaders" {
-				return true
-			}
-			n++
-			for _, a := range call.Args {
-				ac, ok := a.(*ast.CallExpr)
-				ctor := ""
-				if ok {
-					ctor = selName(ac.Fun, "configloader")
+	section("config-loaders", func() {
+		if fd := funcDecl(cfgContext, "", "SetUpConfigManager"); fd != nil {
+			n := 0
+			ast.Inspect(fd, func(nd ast.Node) bool {
+				call, ok := nd.(*ast.CallExpr)
+				if !ok {
+					return true
 				}
-				if !strings.HasPrefix(ctor, "New") {
-					failf("%s: AddConfigLoaders argument is not configloader.New<Loader>(...)", cfgContext)
-					continue
+				sel, ok := call.Fun.(*ast.SelectorExpr)
+				if !ok || sel.Sel.Name != "AddConfigLoaders" {
+					return true
 				}
-				cf.LoaderOrder = append(cf.LoaderOrder, loaderName(strings.TrimPrefix(ctor, "New")))
+				n++
+				for _, a := range call.Args {
+					ac, ok := a.(*ast.CallExpr)
+					ctor := ""
+					if ok {
+						ctor = selName(ac.Fun, "configloader")
+					}
+					if !strings.HasPrefix(ctor, "New") {
+						failf("%s: AddConfigLoaders argument is not configloader.New<Loader>(...)", cfgContext)
+						continue
+					}
+					cf.LoaderOrder = append(cf.LoaderOrder, loaderName(strings.TrimPrefix(ctor, "New")))
+				}
+				return true
+			})
+			if n != 1 {
+				failf("%s: expected exactly one AddConfigLoaders call in SetUpConfigManager, found %d", cfgContext, n)
 			}
-			return true
-		})
-		if n != 1 {
-			failf("%s: expected exactly one AddConfigLoaders call in SetUpConfigManager, found %d", cfgContext, n)
 		}
-	}
 
-	// (2) informer callbacks: one literal in configmap_loader.go (startInformer), shared by the
-	// Secret loader (which must not register its own)
-	if regs := handlerRegistrations(cfgCMLoader); len(regs) == 1 {
-		cf.Handlers = regs[0]
-	} else if regs != nil {
-		failf("%s: expected exactly one handler registration, found %d", cfgCMLoader, len(regs))
-	}
-	if f := parse(cfgSecLoader); f != nil {
-		ast.Inspect(f, func(n ast.Node) bool {
-			if cl, ok := n.(*ast.CompositeLit); ok {
-				if sel, ok := cl.Type.(*ast.SelectorExpr); ok && sel.Sel.Name == "ResourceEventHandlerFuncs" {
-					failf("%s: unexpected own handler registration", cfgSecLoader)
+	})
+
+	section("config-handlers", func() {
+		// (2) informer callbacks: one literal in configmap_loader.go (startInformer), shared by the
+		// Secret loader (which must not register its own)
+		if regs := handlerRegistrations(cfgCMLoader); len(regs) == 1 {
+			cf.Handlers = regs[0]
+		} else if regs != nil {
+			failf("%s: expected exactly one handler registration, found %d", cfgCMLoader, len(regs))
+		}
+		if f := parse(cfgSecLoader); f != nil {
+			ast.Inspect(f, func(n ast.Node) bool {
+				if cl, ok := n.(*ast.CompositeLit); ok {
+					if sel, ok := cl.Type.(*ast.SelectorExpr); ok && sel.Sel.Name == "ResourceEventHandlerFuncs" {
+						failf("%s: unexpected own handler registration", cfgSecLoader)
+					}
 				}
-			}
-			return true
-		})
-	}
-	// the callbacks must pass the (new) object to eventHandler
-	if fd := funcDecl(cfgCMLoader, "ConfigMapLoader", "startInformer"); fd != nil {
-		ast.Inspect(fd, func(n ast.Node) bool {
-			cl, ok := n.(*ast.CompositeLit)
-			if !ok {
 				return true
-			}
-			if sel, ok := cl.Type.(*ast.SelectorExpr); !ok || sel.Sel.Name != "ResourceEventHandlerFuncs" {
-				return true
-			}
-			for _, el := range cl.Elts {
-				kv := el.(*ast.KeyValueExpr)
-				key := kv.Key.(*ast.Ident).Name
-				okShape := false
-				switch v := kv.Value.(type) {
-				case *ast.Ident:
-					okShape = key == "AddFunc" && v.Name == "eventHandler"
-				case *ast.FuncLit:
-					if key == "UpdateFunc" && len(v.Body.List) == 1 && len(v.Type.Params.List) >= 1 {
-						var params []string
-						for _, p := range v.Type.Params.List {
-							for _, nm := range p.Names {
-								params = append(params, nm.Name)
+			})
+		}
+		// the callbacks must pass the (new) object to eventHandler
+		if fd := funcDecl(cfgCMLoader, "ConfigMapLoader", "startInformer"); fd != nil {
+			ast.Inspect(fd, func(n ast.Node) bool {
+				cl, ok := n.(*ast.CompositeLit)
+				if !ok {
+					return true
+				}
+				if sel, ok := cl.Type.(*ast.SelectorExpr); !ok || sel.Sel.Name != "ResourceEventHandlerFuncs" {
+					return true
+				}
+				for _, el := range cl.Elts {
+					kv := el.(*ast.KeyValueExpr)
+					key := kv.Key.(*ast.Ident).Name
+					okShape := false
+					switch v := kv.Value.(type) {
+					case *ast.Ident:
+						okShape = key == "AddFunc" && v.Name == "eventHandler"
+					case *ast.FuncLit:
+						if key == "UpdateFunc" && len(v.Body.List) == 1 && len(v.Type.Params.List) >= 1 {
+							var params []string
+							for _, p := range v.Type.Params.List {
+								for _, nm := range p.Names {
+									params = append(params, nm.Name)
+								}
 							}
-						}
-						if es, ok := v.Body.List[0].(*ast.ExprStmt); ok && len(params) == 2 {
-							if call, ok := es.X.(*ast.CallExpr); ok && len(call.Args) == 1 {
-								fn, _ := call.Fun.(*ast.Ident)
-								arg, _ := call.Args[0].(*ast.Ident)
-								okShape = fn != nil && arg != nil && fn.Name == "eventHandler" && arg.Name == params[1]
+							if es, ok := v.Body.List[0].(*ast.ExprStmt); ok && len(params) == 2 {
+								if call, ok := es.X.(*ast.CallExpr); ok && len(call.Args) == 1 {
+									fn, _ := call.Fun.(*ast.Ident)
+									arg, _ := call.Args[0].(*ast.Ident)
+									okShape = fn != nil && arg != nil && fn.Name == "eventHandler" && arg.Name == params[1]
+								}
 							}
 						}
 					}
+					if !okShape {
+						failf("%s: startInformer: callback %s does not have the modelled shape", cfgCMLoader, key)
+					}
 				}
-				if !okShape {
-					failf("%s: startInformer: callback %s does not have the modelled shape", cfgCMLoader, key)
-				}
-			}
-			return true
-		})
-	}
+				return true
+			})
+		}
 
-	// (3) mergo options of loadConfig
-	if fd := funcDecl(cfgManager, "ConfigManager", "loadConfig"); fd != nil {
-		n := 0
-		ast.Inspect(fd, func(nd ast.Node) bool {
-			call, ok := nd.(*ast.CallExpr)
-			if !ok || selName(call.Fun, "mergo") == "" {
-				return true
-			}
-			if selName(call.Fun, "mergo") != "Merge" || len(call.Args) < 2 {
-				failf("%s: loadConfig: unrecognised mergo call", cfgManager)
-				return true
-			}
-			n++
-			cf.MergeOptions = []string{}
-			for _, a := range call.Args[2:] {
-				o := selName(a, "mergo")
-				if o == "" {
-					failf("%s: loadConfig: unrecognised mergo option", cfgManager)
-				}
-				cf.MergeOptions = append(cf.MergeOptions, o)
-			}
-			return true
-		})
-		if n != 1 {
-			failf("%s: loadConfig: expected exactly one mergo.Merge call, found %d", cfgManager, n)
-		}
-	}
+	})
 
-	// (4) names, readers, fields, defaults
-	cf.Names = typedStringConsts(cfgNamesTypes, "ConfigName")
-	for _, m := range []string{"Jobs", "JobConfigs", "Cron"} {
-		fd := funcDecl(cfgContext, "ContextConfigs", m)
-		if fd == nil {
-			continue
-		}
-		typ, nameConst := "", ""
-		ast.Inspect(fd.Body, func(nd ast.Node) bool {
-			switch x := nd.(type) {
-			case *ast.ValueSpec:
-				if len(x.Names) == 1 && x.Names[0].Name == "config" {
-					typ = selName(x.Type, "configv1alpha1")
+	section("config-merge", func() {
+		// (3) mergo options of loadConfig
+		if fd := funcDecl(cfgManager, "ConfigManager", "loadConfig"); fd != nil {
+			n := 0
+			ast.Inspect(fd, func(nd ast.Node) bool {
+				call, ok := nd.(*ast.CallExpr)
+				if !ok || selName(call.Fun, "mergo") == "" {
+					return true
 				}
-			case *ast.CallExpr:
-				if sel, ok := x.Fun.(*ast.SelectorExpr); ok && sel.Sel.Name == "LoadAndUnmarshalConfig" && len(x.Args) == 2 {
-					nameConst = selName(x.Args[0], "configv1alpha1")
+				if selName(call.Fun, "mergo") != "Merge" || len(call.Args) < 2 {
+					failf("%s: loadConfig: unrecognised mergo call", cfgManager)
+					return true
 				}
-			}
-			return true
-		})
-		name, ok := cf.Names[nameConst]
-		if typ == "" || !ok {
-			failf("%s: %s(): shape not recognised", cfgContext, m)
-			continue
-		}
-		cf.Readers = append(cf.Readers, [3]string{m, name, typ})
-		cf.ConfigOrder = append(cf.ConfigOrder, name)
-		cf.Fields[name] = structFields(typ)
-	}
-	// NewDefaultsLoader: config name const -> config.<Var>
-	defVar := map[string]string{}
-	if fd := funcDecl(cfgDefLoader, "", "NewDefaultsLoader"); fd != nil {
-		ast.Inspect(fd, func(nd ast.Node) bool {
-			kv, ok := nd.(*ast.KeyValueExpr)
-			if !ok {
+				n++
+				cf.MergeOptions = []string{}
+				for _, a := range call.Args[2:] {
+					o := selName(a, "mergo")
+					if o == "" {
+						failf("%s: loadConfig: unrecognised mergo option", cfgManager)
+					}
+					cf.MergeOptions = append(cf.MergeOptions, o)
+				}
 				return true
+			})
+			if n != 1 {
+				failf("%s: loadConfig: expected exactly one mergo.Merge call, found %d", cfgManager, n)
 			}
-			k := selName(kv.Key, "configv1alpha1")
-			v := selName(kv.Value, "config")
-			if k != "" && v != "" {
-				if name, ok := cf.Names[k]; ok {
-					defVar[name] = v
-				} else {
-					failf("%s: NewDefaultsLoader: unknown config name constant %s", cfgDefLoader, k)
+		}
+
+	})
+
+	section("config-schema", func() {
+		// (4) names, readers, fields, defaults
+		cf.Names = typedStringConsts(cfgNamesTypes, "ConfigName")
+		for _, m := range []string{"Jobs", "JobConfigs", "Cron"} {
+			fd := funcDecl(cfgContext, "ContextConfigs", m)
+			if fd == nil {
+				continue
+			}
+			typ, nameConst := "", ""
+			ast.Inspect(fd.Body, func(nd ast.Node) bool {
+				switch x := nd.(type) {
+				case *ast.ValueSpec:
+					if len(x.Names) == 1 && x.Names[0].Name == "config" {
+						typ = selName(x.Type, "configv1alpha1")
+					}
+				case *ast.CallExpr:
+					if sel, ok := x.Fun.(*ast.SelectorExpr); ok && sel.Sel.Name == "LoadAndUnmarshalConfig" && len(x.Args) == 2 {
+						nameConst = selName(x.Args[0], "configv1alpha1")
+					}
+				}
+				return true
+			})
+			name, ok := cf.Names[nameConst]
+			if typ == "" || !ok {
+				failf("%s: %s(): shape not recognised", cfgContext, m)
+				continue
+			}
+			cf.Readers = append(cf.Readers, [3]string{m, name, typ})
+			cf.ConfigOrder = append(cf.ConfigOrder, name)
+			cf.Fields[name] = structFields(typ)
+		}
+		// NewDefaultsLoader: config name const -> config.<Var>
+		defVar := map[string]string{}
+		if fd := funcDecl(cfgDefLoader, "", "NewDefaultsLoader"); fd != nil {
+			ast.Inspect(fd, func(nd ast.Node) bool {
+				kv, ok := nd.(*ast.KeyValueExpr)
+				if !ok {
+					return true
+				}
+				k := selName(kv.Key, "configv1alpha1")
+				v := selName(kv.Value, "config")
+				if k != "" && v != "" {
+					if name, ok := cf.Names[k]; ok {
+						defVar[name] = v
+					} else {
+						failf("%s: NewDefaultsLoader: unknown config name constant %s", cfgDefLoader, k)
+					}
+				}
+				return true
+			})
+		}
+		for _, r := range cf.Readers {
+			name, typ := r[1], r[2]
+			v, ok := defVar[name]
+			if !ok {
+				failf("%s: NewDefaultsLoader has no default for %s", cfgDefLoader, name)
+				continue
+			}
+			e := constExpr(cfgDefaults, v)
+			ue, ok := e.(*ast.UnaryExpr)
+			var cl *ast.CompositeLit
+			if ok && ue.Op == token.AND {
+				cl, _ = ue.X.(*ast.CompositeLit)
+			}
+			if cl == nil || selName(cl.Type, "configv1alpha1") != typ {
+				failf("%s: %s is not &configv1alpha1.%s{...}", cfgDefaults, v, typ)
+				continue
+			}
+			byGo := map[string]configField{}
+			for _, fl := range cf.Fields[name] {
+				byGo[fl.GoName] = fl
+			}
+			vals := map[string]string{}
+			for _, el := range cl.Elts {
+				kv, ok := el.(*ast.KeyValueExpr)
+				if !ok {
+					failf("%s: %s: positional field", cfgDefaults, v)
+					continue
+				}
+				fn := kv.Key.(*ast.Ident).Name
+				fl, ok := byGo[fn]
+				if !ok {
+					failf("%s: %s: unknown field %s", cfgDefaults, v, fn)
+					continue
+				}
+				val, ptr := evalDefault(kv.Value, v+"."+fn)
+				if val == nil {
+					continue
+				}
+				if ptr != strings.HasPrefix(fl.GoType, "*") {
+					failf("%s: %s.%s: pointer-ness of the initialiser does not match the field type", cfgDefaults, v, fn)
+					continue
+				}
+				want := strings.TrimPrefix(fl.GoType, "*")
+				got := map[reflect.Kind]string{reflect.Int64: "int64", reflect.Bool: "bool", reflect.String: "string"}[reflect.ValueOf(val).Kind()]
+				if want != got {
+					failf("%s: %s.%s: initialiser type %s does not match field type %s", cfgDefaults, v, fn, got, want)
+					continue
+				}
+				// json.Marshal: omitempty drops zero values of non-pointer fields; a non-nil pointer is kept
+				if !ptr && fl.OmitEmpty && reflect.ValueOf(val).IsZero() {
+					continue
+				}
+				vals[fl.Key] = valueToken(val)
+			}
+			// fields without omitempty are always marshalled (zero value when not initialised)
+			for _, fl := range cf.Fields[name] {
+				if _, ok := vals[fl.Key]; !ok && !fl.OmitEmpty && fl.GoType != "struct" {
+					failf("%s: %s.%s: field without omitempty is not modelled", cfgDefaults, v, fl.GoName)
 				}
 			}
-			return true
-		})
-	}
-	for _, r := range cf.Readers {
-		name, typ := r[1], r[2]
-		v, ok := defVar[name]
-		if !ok {
-			failf("%s: NewDefaultsLoader has no default for %s", cfgDefLoader, name)
-			continue
-		}
-		e := constExpr(cfgDefaults, v)
-		ue, ok := e.(*ast.UnaryExpr)
-		var cl *ast.CompositeLit
-		if ok && ue.Op == token.AND {
-			cl, _ = ue.X.(*ast.CompositeLit)
-		}
-		if cl == nil || selName(cl.Type, "configv1alpha1") != typ {
-			failf("%s: %s is not &configv1alpha1.%s{...}", cfgDefaults, v, typ)
-			continue
-		}
-		byGo := map[string]configField{}
-		for _, fl := range cf.Fields[name] {
-			byGo[fl.GoName] = fl
-		}
-		vals := map[string]string{}
-		for _, el := range cl.Elts {
-			kv, ok := el.(*ast.KeyValueExpr)
-			if !ok {
-				failf("%s: %s: positional field", cfgDefaults, v)
-				continue
+			keys := make([]string, 0, len(vals))
+			for k := range vals {
+				keys = append(keys, k)
 			}
-			fn := kv.Key.(*ast.Ident).Name
-			fl, ok := byGo[fn]
-			if !ok {
-				failf("%s: %s: unknown field %s", cfgDefaults, v, fn)
-				continue
-			}
-			val, ptr := evalDefault(kv.Value, v+"."+fn)
-			if val == nil {
-				continue
-			}
-			if ptr != strings.HasPrefix(fl.GoType, "*") {
-				failf("%s: %s.%s: pointer-ness of the initialiser does not match the field type", cfgDefaults, v, fn)
-				continue
-			}
-			want := strings.TrimPrefix(fl.GoType, "*")
-			got := map[reflect.Kind]string{reflect.Int64: "int64", reflect.Bool: "bool", reflect.String: "string"}[reflect.ValueOf(val).Kind()]
-			if want != got {
-				failf("%s: %s.%s: initialiser type %s does not match field type %s", cfgDefaults, v, fn, got, want)
-				continue
-			}
-			// json.Marshal: omitempty drops zero values of non-pointer fields; a non-nil pointer is kept
-			if !ptr && fl.OmitEmpty && reflect.ValueOf(val).IsZero() {
-				continue
-			}
-			vals[fl.Key] = valueToken(val)
-		}
-		// fields without omitempty are always marshalled (zero value when not initialised)
-		for _, fl := range cf.Fields[name] {
-			if _, ok := vals[fl.Key]; !ok && !fl.OmitEmpty && fl.GoType != "struct" {
-				failf("%s: %s.%s: field without omitempty is not modelled", cfgDefaults, v, fl.GoName)
+			sort.Strings(keys)
+			for _, k := range keys {
+				cf.Defaults[name] = append(cf.Defaults[name], [2]string{k, vals[k]})
 			}
 		}
-		keys := make([]string, 0, len(vals))
-		for k := range vals {
-			keys = append(keys, k)
-		}
-		sort.Strings(keys)
-		for _, k := range keys {
-			cf.Defaults[name] = append(cf.Defaults[name], [2]string{k, vals[k]})
-		}
-	}
+	})
+	return cf
+}
+
+// configSectionFacts extracts and emits the C19 facts.
+func configSectionFacts(b *strings.Builder) *configFacts {
+	cf := extractConfig()
+	cf.emit(b)
 	return cf
 }
 
@@ -485,43 +503,51 @@ func (cf *configFacts) emit(b *strings.Builder) {
 		return "[" + strings.Join(q, ", ") + "]"
 	}
 	b.WriteString("\n/-! dynamic configuration (C19) -/\n")
-	fmt.Fprintf(b, "/-- `Name()` of the loaders in the order of `AddConfigLoaders(...)` in `SetUpConfigManager` (lowest priority first) -/\ndef configLoaderOrder : List String := %s\n", ls(cf.LoaderOrder))
-	fmt.Fprintf(b, "/-- `ConfigMapLoader.startInformer` (shared by `SecretLoader`) registers AddFunc / UpdateFunc / DeleteFunc -/\n")
-	fmt.Fprintf(b, "def configLoaderHandlerAdd : Bool := %v\ndef configLoaderHandlerUpdate : Bool := %v\ndef configLoaderHandlerDelete : Bool := %v\n", cf.Handlers[0], cf.Handlers[1], cf.Handlers[2])
-	fmt.Fprintf(b, "/-- options passed to `mergo.Merge` in `ConfigManager.loadConfig` -/\ndef configMergeOptions : List String := %s\n", ls(cf.MergeOptions))
-	b.WriteString("/-- reader method of `ContextConfigs` ↦ config name -/\ndef configReaders : List (String × String) := [")
-	for i, r := range cf.Readers {
-		if i > 0 {
-			b.WriteString(", ")
+	emit(b, "config-loaders", func(b *strings.Builder) {
+		fmt.Fprintf(b, "/-- `Name()` of the loaders in the order of `AddConfigLoaders(...)` in `SetUpConfigManager` (lowest priority first) -/\ndef configLoaderOrder : List String := %s\n", ls(cf.LoaderOrder))
+	})
+	emit(b, "config-handlers", func(b *strings.Builder) {
+		fmt.Fprintf(b, "/-- `ConfigMapLoader.startInformer` (shared by `SecretLoader`) registers AddFunc / UpdateFunc / DeleteFunc -/\n")
+		fmt.Fprintf(b, "def configLoaderHandlerAdd : Bool := %v\ndef configLoaderHandlerUpdate : Bool := %v\ndef configLoaderHandlerDelete : Bool := %v\n", cf.Handlers[0], cf.Handlers[1], cf.Handlers[2])
+	})
+	emit(b, "config-merge", func(b *strings.Builder) {
+		fmt.Fprintf(b, "/-- options passed to `mergo.Merge` in `ConfigManager.loadConfig` -/\ndef configMergeOptions : List String := %s\n", ls(cf.MergeOptions))
+	})
+	emit(b, "config-schema", func(b *strings.Builder) {
+		b.WriteString("/-- reader method of `ContextConfigs` ↦ config name -/\ndef configReaders : List (String × String) := [")
+		for i, r := range cf.Readers {
+			if i > 0 {
+				b.WriteString(", ")
+			}
+			fmt.Fprintf(b, "(%s, %s)", leanStr(r[0]), leanStr(r[1]))
 		}
-		fmt.Fprintf(b, "(%s, %s)", leanStr(r[0]), leanStr(r[1]))
-	}
-	b.WriteString("]\n")
-	pairs := func(ps [][2]string) string {
-		q := make([]string, len(ps))
-		for i, p := range ps {
-			q[i] = fmt.Sprintf("(%s, %s)", leanStr(p[0]), leanStr(p[1]))
+		b.WriteString("]\n")
+		pairs := func(ps [][2]string) string {
+			q := make([]string, len(ps))
+			for i, p := range ps {
+				q[i] = fmt.Sprintf("(%s, %s)", leanStr(p[0]), leanStr(p[1]))
+			}
+			return "[" + strings.Join(q, ", ") + "]"
 		}
-		return "[" + strings.Join(q, ", ") + "]"
-	}
-	b.WriteString("/-- config name ↦ fields as mapstructure sees them: (key, Go type) in declaration order -/\ndef configFields : List (String × List (String × String)) := [")
-	for i, n := range cf.ConfigOrder {
-		if i > 0 {
-			b.WriteString(",\n  ")
+		b.WriteString("/-- config name ↦ fields as mapstructure sees them: (key, Go type) in declaration order -/\ndef configFields : List (String × List (String × String)) := [")
+		for i, n := range cf.ConfigOrder {
+			if i > 0 {
+				b.WriteString(",\n  ")
+			}
+			var ps [][2]string
+			for _, fl := range cf.Fields[n] {
+				ps = append(ps, [2]string{fl.Key, fl.GoType})
+			}
+			fmt.Fprintf(b, "(%s, %s)", leanStr(n), pairs(ps))
 		}
-		var ps [][2]string
-		for _, fl := range cf.Fields[n] {
-			ps = append(ps, [2]string{fl.Key, fl.GoType})
+		b.WriteString("]\n")
+		b.WriteString("/-- config name ↦ built-in defaults as `DefaultsLoader.marshal` renders them: (json key, value token) sorted by key -/\ndef configDefaults : List (String × List (String × String)) := [")
+		for i, n := range cf.ConfigOrder {
+			if i > 0 {
+				b.WriteString(",\n  ")
+			}
+			fmt.Fprintf(b, "(%s, %s)", leanStr(n), pairs(cf.Defaults[n]))
 		}
-		fmt.Fprintf(b, "(%s, %s)", leanStr(n), pairs(ps))
-	}
-	b.WriteString("]\n")
-	b.WriteString("/-- config name ↦ built-in defaults as `DefaultsLoader.marshal` renders them: (json key, value token) sorted by key -/\ndef configDefaults : List (String × List (String × String)) := [")
-	for i, n := range cf.ConfigOrder {
-		if i > 0 {
-			b.WriteString(",\n  ")
-		}
-		fmt.Fprintf(b, "(%s, %s)", leanStr(n), pairs(cf.Defaults[n]))
-	}
-	b.WriteString("]\n")
+		b.WriteString("]\n")
+	})
 }
